@@ -18,7 +18,7 @@ from sim import core, simfs
 from checks import c18_world as W
 
 PROP = 'C18'
-N_CONFIGS = {'quick': 208, 'thorough': 4800}
+N_CONFIGS = {'quick': 176, 'thorough': 4800}
 HISTORIES_PER_CONFIG = {'quick': 5, 'thorough': 10}
 WALL_CAP = {'quick': 130.0, 'thorough': 2700.0}
 
